@@ -34,6 +34,7 @@ func (k *KeyedRef[K, V]) Release() {
 	if k.rel.Swap(true) {
 		return
 	}
+	verifPoint(4, k.key)
 	k.rc.mtx.Lock()
 	refs := k.rc.refs[k.key]
 	for i := 0; i < len(refs); i++ {
